@@ -61,7 +61,16 @@ def _initialize_window_functions():
 
         if not ("M" in sig.parameters and "sym" in sig.parameters):
             continue
-        elif len(sig.parameters) > 2:
+        elif any(
+            (
+                p.kind is not p.KEYWORD_ONLY or p.default is p.empty
+                for n, p in sig.parameters.items()
+                if n not in ("M", "sym")
+            )
+        ):
+            # Only optional keyword-only parameters (e.g., 'xp' and 'device'
+            # in recent versions of SciPy) are allowed in addition to 'M'
+            # and 'sym'.
             continue
 
         _WINDOW_FUNCTIONS[name] = func
